@@ -15,6 +15,7 @@ MOLS = {
     "H3+tri": dict(symbols=["H", "H", "H"], charge=1, shape="triangle"),
     "H4": dict(symbols=["H", "H", "H", "H"], charge=0, shape="chain"),
     "LiH": dict(symbols=["Li", "H"], charge=0, shape="chain"),
+    "H6": dict(symbols=["H"] * 6, charge=0, shape="chain"),
 }
 Z = {"H": 1, "He": 2, "Li": 3}
 
